@@ -1118,7 +1118,7 @@ func callBuiltin(caller *frame, callpos token.Pos, fn *ssa.Builtin, args []value
 	panic("unknown built-in: " + fn.Name())
 }
 
-func rangeIter(r *Run, x value, t types.Type) iter {
+func rangeIter(r *Run, x value, t types.Type, sym bool) iter {
 	switch x := x.(type) {
 	case map[value]value:
 		var keys []value
@@ -1126,7 +1126,7 @@ func rangeIter(r *Run, x value, t types.Type) iter {
 			keys = append(keys, k)
 		}
 		sort.Slice(keys, func(i, j int) bool { return toString(keys[i]) < toString(keys[j]) })
-		return &chooseIter{r: r, m: x, keys: keys}
+		return &chooseIter{r: r, sym: sym, m: x, keys: keys}
 	case *hashmap:
 		var ents []*entry
 		for _, e := range x.entries() {
@@ -1135,7 +1135,7 @@ func rangeIter(r *Run, x value, t types.Type) iter {
 			}
 		}
 		sort.Slice(ents, func(i, j int) bool { return toString(ents[i].key) < toString(ents[j].key) })
-		return &hashmapIter{r: r, ents: ents}
+		return &hashmapIter{r: r, sym: sym, ents: ents}
 	case string:
 		return &stringIter{Reader: strings.NewReader(x)}
 	case symstr:
